@@ -551,11 +551,14 @@ Definition xml_char_valid (c : N) : bool :=
   ((32 <=? c) && (c <=? 126)) || (c =? 9) || (c =? 10) || (c =? 13).
 Definition xml_safe_name (n : list N) : list N := filter xml_char_valid n.
 
-Definition xml_import_attr (s : mstate) (e : N * imattr) : mstate :=
+(* [predef]: the exported topology has the predefined attributes (it was not loaded with
+   HWLOC_TOPOLOGY_FLAG_NO_MEMATTRS).  The export skips the convenience attributes (tested by their
+   flag) and, when they exist, the predefined attributes without any target. *)
+Definition xml_import_attr (predef : bool) (s : mstate) (e : N * imattr) : mstate :=
   let (id, a) := e in
   let name := xml_safe_name (a_name a) in
-  if (id =? HWLOC_MEMATTR_ID_CAPACITY) || (id =? HWLOC_MEMATTR_ID_LOCALITY) then s
-  else if (id <? HWLOC_MEMATTR_ID_MAX) && (match a_tgs a with [] => true | _ => false end) then s
+  if a_conv a then s
+  else if predef && (id <? HWLOC_MEMATTR_ID_MAX) && (match a_tgs a with [] => true | _ => false end) then s
   else
     let (s1, oid) :=
       match get_by_name s name with
@@ -570,10 +573,11 @@ Definition xml_import_attr (s : mstate) (e : N * imattr) : mstate :=
     | Some i => fold_left (fun s g => xml_import_values s i (need_init a) g) (a_tgs a) s1
     end.
 
-Definition xml_switch (s : mstate) (t' : topo) : mstate :=
+Definition xml_switch_from (predef : bool) (s : mstate) (t' : topo) : mstate :=
   let s0 := MS t' init_attrs in
-  let s1 := fold_left xml_import_attr (number_from 0 (refresh_all (m_topo s) (m_attrs s))) s0 in
+  let s1 := fold_left (xml_import_attr predef) (number_from 0 (refresh_all (m_topo s) (m_attrs s))) s0 in
   MS t' (refresh_all t' (need_refresh (m_attrs s1))).
+Definition xml_switch (s : mstate) (t' : topo) : mstate := xml_switch_from true s t'.
 
 (* sentinels for the driver *)
 Definition gp_none : N := MEMATTR_GP_NONE.
@@ -601,9 +605,11 @@ Inductive op :=
 | OXml (t' : topo)
 | ORegisterNull (flags : N)     (* hwloc_memattr_register with a NULL name *)
 | OAllow (incl : bool) (cpuset nodeset : option bset) (flags : N)
-| OXmlNoMem (t' : topo).
+| OXmlNoMem (t' : topo)
+| OXmlFromNoMem (t' : topo).
     (* hwloc_topology_allow on a topology loaded with (incl=true) or without INCLUDE_DISALLOWED;
-       OXmlNoMem: XML round trip of a topology loaded with NO_MEMATTRS (the flag is kept for the reload) *)
+       OXmlNoMem: XML round trip of a topology loaded with NO_MEMATTRS (the flag is kept for the reload);
+       OXmlFromNoMem: the same export reloaded WITHOUT the flag, into an ordinary topology *)
 
 Inductive out :=
 | RUnit (r : res unit)
@@ -655,6 +661,7 @@ Definition step (s : mstate) (o : op) : mstate * out :=
   | ORegisterNull _ => (s, RNum (Err EINVAL))   (* flag checks and the NULL test all end in EINVAL *)
   | OAllow incl c n f => (s, RUnit (allow_result (m_topo s) incl c n f))
   | OXmlNoMem t' => (init_state_nomem t', RUnit (Ok tt))   (* hwloc__xml_import_memattr ignores every attribute *)
+  | OXmlFromNoMem t' => (xml_switch_from false s t', RUnit (Ok tt))
   end.
 
 Definition run (s : mstate) (ops : list op) : mstate := fold_left (fun s o => fst (step s o)) ops s.
